@@ -623,6 +623,10 @@ package helper
 //@ requires[C01,C15] forall j :: lo <= j && j < hi ==> a[j] == b[j]
 //@ ensures[C01,C15] devsq(a, lo, hi, mu) == devsq(b, lo, hi, mu)
 //@ induction hi from lo
+//@ lemma wmaW_cong(a stream, b stream, lo int, n int, P int)
+//@ requires[C01] forall j :: lo <= j && j < lo + n ==> a[j] == b[j]
+//@ ensures[C01] wmaW(a, lo, n, P) == wmaW(b, lo, n, P)
+//@ induction n
 //@ lemma rma_cong(a stream, b stream, P int, k int)
 //@ requires[C01,C15] P >= 1 && k >= 0 && (forall j :: 0 <= j && j < k + P ==> a[j] == b[j])
 //@ ensures[C01,C15] rmaS(a, P, k) == rmaS(b, P, k)
